@@ -150,17 +150,30 @@ def takes_of(info, f):
     return out
 
 
-def check_takes(ctx, tu, info):
-    for q in QUEUES:
+def check_takes(ctx, tu, info, rule='C05.1', queues=None, only_dest=False):
+    for q in (queues or QUEUES):
         for f in info.members(q):
             if f.kind == 'lambda' or is_lifetime(f):
                 continue
             takes = takes_of(info, f)
             if not takes:
                 continue
+            # the events taken belong to this call alone: they go into a list that is a local variable of the call (a data member would be
+            # shared by nested calls from listeners and by other consumer threads, whose takes put this call's batch back into the queue)
+            for t in takes:
+                n = t['node']
+                ops = ([f.call_obj(n)] if f.call_obj(n) else []) + list(f.call_args(n))
+                dest = [p_ for p_ in (path(f, x) for x in ops) if p_ and p_ != ('this', '.queueList') and not p_[-1].endswith('()')]
+                dest = [p_ for p_ in dest if p_[0] == 'this' or p_[0].startswith('v:')]
+                member = [p_ for p_ in dest if p_[0] == 'this' and len(p_) == 2 and p_[1] not in ('.queueList',)]
+                ctx.ob(rule, f, 'events are taken into a list local to the call', not member,
+                       detail='taken into the data member %s at %s' % (', '.join(pstr(p_) for p_ in member), f.nloc(n)),
+                       where=f.nloc(n), key_detail='take destination local')
+            if only_dest:
+                continue
             inv = invoke_calls(info, f)
             one = len(takes) == 1 and not f.block_reaches(takes[0]['pos'][0], takes[0]['pos'][0])
-            ctx.ob('C05.1', f, 'events are taken out of queueList at exactly one site, outside any loop', one,
+            ctx.ob(rule, f, 'events are taken out of queueList at exactly one site, outside any loop', one,
                    detail='%d take sites (%s): events enqueued by listeners during the call would be consumed by the same call'
                           % (len(takes), ', '.join(f.nloc(t['node']) for t in takes)))
             # what stands between a call and the pending events is only "is there any?": a take guarded by anything else (notification
@@ -182,12 +195,12 @@ def check_takes(ctx, tu, info):
                     for a in ats:
                         if not (a.replace('this.', '').replace('this->', '') in ('queueList.empty()',) or a.endswith('queueList.empty()')):
                             extra.append('%s at %s' % (a, f.nloc(c)))
-                ctx.ob('C05.1', f, 'the take is guarded by nothing but "queueList is not empty"', not extra,
+                ctx.ob(rule, f, 'the take is guarded by nothing but "queueList is not empty"', not extra,
                        detail='also depends on %s' % '; '.join(extra[:3]), key_detail='take guard')
             if one and inv:
                 # recursion into the next prototype level (heterogeneous doProcessIf) is a separate call with its own take
                 later = [n for n in inv if f.pos_reaches(f.pos(n), takes[0]['pos']) and (f.callee_key(n) or '') != f.skey]
-                ctx.ob('C05.1', f, 'no dispatch / predicate call can be followed by the take', not later,
+                ctx.ob(rule, f, 'no dispatch / predicate call can be followed by the take', not later,
                        detail='user code at %s can run before the take at %s' % (', '.join(f.nloc(n) for n in later), f.nloc(takes[0]['node'])))
 
 
